@@ -3,6 +3,7 @@
     srvseq <msize> <dotu> <auth> ; <T message> > <answer> [, <AuthCheck answer>] ; …
 -/
 import G9.SrvSeq
+import G9.Version
 import G9.Driver.Text
 namespace G9.Driver
 open G9 G9.Srv G9.Text
@@ -58,6 +59,15 @@ def srvCfg (msize : UInt32) (dotu auth : Bool) : Cfg :=
 
 def srvseq (cmd : String) (args : List String) : Option String :=
   match cmd with
+  | "connect" =>
+    -- connect <client msize> <client dotu> <server msize> <server dotu>: the client's Connect against the framework
+    match args with
+    | [cm, cd, sm, sd] => do
+      let cfg := srvCfg (← u32? sm) (← bool? sd) false
+      match Version.connect cfg (fun _ => .r .rflush) (← u32? cm) (← bool? cd) with
+      | some ((m, d), sc) => some s!"ok {m.toNat} {if d then 1 else 0} {sc.msize.toNat} {if sc.dotu then 1 else 0}"
+      | none => some "refused"
+    | _ => none
   | "srvseq" =>
     match splitTok args ";" with
     | [ms, du, au] :: steps => do
